@@ -380,6 +380,7 @@ func runC03Methods(x *mc.X) {
 	method := mc.Pick(x, "method", []string{"GET", "HEAD", "POST", "OPTIONS", "get", "QUERY", "PUT", "DELETE", "TRACE", "PROPFIND"})
 	rng := mc.Pick(x, "range", []string{"", "bytes=0-1", "bytes=0-"})
 	state := mc.Pick(x, "stored", []string{"fresh", "stale+etag"})
+	reqCC := mc.Pick(x, "request-cache-control", []string{"", "only-if-cached", "max-stale"})
 	w := world.New(world.Opt{})
 	defer w.Close()
 	ccv := map[string]string{"fresh": "max-age=1000", "stale+etag": "max-age=1"}[state]
@@ -400,12 +401,15 @@ func runC03Methods(x *mc.X) {
 	if rng != "" {
 		req.Header.Set("Range", rng)
 	}
+	if reqCC != "" {
+		req.Header.Set("Cache-Control", reqCC)
+	}
 	o2 := w.Do(req)
-	logObs(x, fmt.Sprintf("%s Range=%q", method, rng), o2)
+	logObs(x, fmt.Sprintf("%s Range=%q Cache-Control=%q", method, rng, reqCC), o2)
 	plain := method == "GET" && rng == ""
 	x.Nontrivial(fmt.Sprintf("%s/range=%v/%s", method, rng != "", state))
-	x.State(method, rng, state, obsClass(o2), fmt.Sprint(o2.Tok == o1.Tok))
-	x.Sample(map[string]any{"method": method, "range": rng, "stored": state, "observed": o2.String()})
+	x.State(method, rng, state, reqCC, obsClass(o2), fmt.Sprint(o2.Tok == o1.Tok))
+	x.Sample(map[string]any{"method": method, "range": rng, "stored": state, "request_cache_control": reqCC, "observed": o2.String()})
 	if o2.Panic != nil || o2.Err != nil {
 		return
 	}
